@@ -3184,8 +3184,16 @@ func (s *ImmuStore) readTx(txID uint64, allowPrecommitted bool, skipIntegrityChe
 	if errors.Is(err, io.EOF) {
 		return fmt.Errorf("%w: unexpected EOF while reading tx %d", ErrCorruptedTxData, txID)
 	}
+	if err != nil {
+		return err
+	}
 
-	return err
+	if tx.header.ID != txID {
+		// a well-formed record of another transaction sits where the commit log locates this one
+		return fmt.Errorf("%w: tx %d found where tx %d was expected", ErrCorruptedTxData, tx.header.ID, txID)
+	}
+
+	return nil
 }
 
 func (s *ImmuStore) ReadTxHeader(txID uint64, allowPrecommitted bool, skipIntegrityCheck bool) (*TxHeader, error) {
@@ -3199,6 +3207,10 @@ func (s *ImmuStore) ReadTxHeader(txID uint64, allowPrecommitted bool, skipIntegr
 	header, err := tdr.readHeader(s.maxTxEntries)
 	if err != nil {
 		return nil, err
+	}
+
+	if header.ID != txID {
+		return nil, fmt.Errorf("%w: tx %d found where tx %d was expected", ErrCorruptedTxData, header.ID, txID)
 	}
 
 	// The TxEntry's key buffer is scratch — the returned *TxHeader carries
@@ -3241,6 +3253,10 @@ func (s *ImmuStore) ReadTxEntry(txID uint64, key []byte, skipIntegrityCheck bool
 	header, err := tdr.readHeader(s.maxTxEntries)
 	if err != nil {
 		return nil, nil, err
+	}
+
+	if header.ID != txID {
+		return nil, nil, fmt.Errorf("%w: tx %d found where tx %d was expected", ErrCorruptedTxData, header.ID, txID)
 	}
 
 	e := &TxEntry{k: make([]byte, s.maxKeyLen)}
